@@ -15,6 +15,7 @@ RULE = ("enumeration cases walk the encoding order of one (width, segment, first
 EXPLANATION = ("thorough: every valid value of widths 1-5 is enumerated (exhaustive for the "
                "valid-value clause); malformed strings exhaustive to width 3, sampled beyond")
 EXHAUSTIVE = {"quick": False, "thorough": False}
+RULE = RULE + ' Round 8: malformed fields also go through the record door Atom(line=...); 35 % of the serial cases carry nucleotides, ligand fragments or ions.'
 ASSUMPTIONS = ["a leading '-' in front of the letter forms is accepted (pinned by "
                "tests/test_hybrid36.py), so it is not counted as malformed",
                "reference grammar: optional sign, then digits+ | [A-Z][0-9A-Z]* | [a-z][0-9a-z]*"]
